@@ -23,8 +23,9 @@ def cmps_from(enc):
 
 def run_case(case):
     from . import stages
-    registry = stages.make_registry(tuple(case.get("kinds", ("IntString", "FloatString", "BooleanString"))),
-                                    datetime=case.get("datetime", False))
+    registry = None if case.get("defaultRegistry") else \
+        stages.make_registry(tuple(case.get("kinds", ("IntString", "FloatString", "BooleanString"))),
+                             datetime=case.get("datetime", False))
     inputs = [tuple(x) for x in case["inputs"]]
     try:
         reg, _ = stages.build_registry(inputs, registry, cmps_from(case["cmps"]), case.get("dictFields", ()),
@@ -41,8 +42,9 @@ def run_case_phased(case, barrier):
     reg = None
     err = None
     try:
-        registry = stages.make_registry(tuple(case.get("kinds", ("IntString", "FloatString", "BooleanString"))),
-                                        datetime=case.get("datetime", False))
+        registry = None if case.get("defaultRegistry") else \
+            stages.make_registry(tuple(case.get("kinds", ("IntString", "FloatString", "BooleanString"))),
+                                 datetime=case.get("datetime", False))
         reg, _ = stages.build_registry([tuple(x) for x in case["inputs"]], registry, cmps_from(case["cmps"]),
                                        case.get("dictFields", ()), case.get("dictRegex", ()))
     except Exception as e:  # noqa
